@@ -1034,3 +1034,200 @@ Proof.
   intros N Hp Hv Hi Ho Hf. apply (eval_no_sym fs sc e I J); [|exact N].
   repeat split; intros; [rewrite Hp | rewrite Hv | rewrite Hi | rewrite Ho | apply Hf; assumption]; reflexivity.
 Qed.
+
+(* ================================================================================================================ *)
+(* The two-happening step: start effects written but not read                                                       *)
+(* ================================================================================================================ *)
+Lemma collect_res_app r1 r2 :
+  collect_res (r1 ++ r2) =
+  match collect_res r1, collect_res r2 with Some x, Some y => Some (x ++ y) | _, _ => None end.
+Proof.
+  induction r1 as [|[| |a] r1 IH]; cbn [app collect_res].
+  - destruct (collect_res r2); reflexivity.
+  - reflexivity.
+  - exact IH.
+  - rewrite IH. destruct (collect_res r1), (collect_res r2); reflexivity.
+Qed.
+
+Lemma fired_app sc I a b :
+  fired sc I (a ++ b) =
+  match fired sc I a, fired sc I b with Some x, Some y => Some (x ++ y) | _, _ => None end.
+Proof. unfold fired. rewrite flat_map_app. apply collect_res_app. Qed.
+
+Lemma collect_res_In rs : forall l a, collect_res rs = Some l -> In a l -> In (EAct a) rs.
+Proof.
+  induction rs as [|[| |b] rs IH]; intros l a H Hin; cbn [collect_res] in H.
+  - inversion H; subst. destruct Hin.
+  - discriminate.
+  - right. exact (IH l a H Hin).
+  - destruct (collect_res rs) as [l'|]; [|discriminate]. inversion H; subst. destruct Hin as [<-|Hin].
+    + left. reflexivity.
+    + right. exact (IH l' a eq_refl Hin).
+Qed.
+
+Lemma eval_effect_key sc J e a : eval_effect sc J e = EAct a -> fst (ae_key a) = e_fl e.
+Proof.
+  unfold eval_effect. destruct (evals_l sc J (e_args e)); [|discriminate].
+  destruct (eval sc (e_cond e) J) as [[[|]| |]|]; try discriminate.
+  destruct (eval sc (e_val e) J); [|discriminate]. intros H. inversion H. reflexivity.
+Qed.
+
+Lemma fired_keys sc I effs acts a :
+  fired sc I effs = Some acts -> In a acts -> In (fst (ae_key a)) (map e_fl effs).
+Proof.
+  unfold fired. intros H Hin. pose proof (collect_res_In _ _ _ H Hin) as R.
+  apply in_flat_map in R. destruct R as [e [He R]]. apply in_map_iff in R. destruct R as [J [R _]].
+  rewrite (eval_effect_key sc J e a R). apply in_map. exact He.
+Qed.
+
+Lemma filter_none {A} (f : A -> bool) l : (forall x, In x l -> f x = false) -> filter f l = [].
+Proof.
+  induction l as [|x l IH]; intros H; [reflexivity|]. cbn. rewrite (H x (or_introl eq_refl)). apply IH.
+  intros y Hy. apply H. right. exact Hy.
+Qed.
+
+Lemma no_key_nil k B : (forall a, In a B -> fst (ae_key a) <> fst k) -> avals k B = [] /\ deltas k B = [].
+Proof.
+  intros H. unfold avals, deltas. split.
+  - rewrite filter_none; [reflexivity|]. intros a Ha. unfold gfl_eqb.
+    destruct (fst (ae_key a) =? fst k)%N eqn:E; [apply N.eqb_eq in E; exfalso; exact (H a Ha E) | reflexivity].
+  - rewrite filter_none; [reflexivity|]. intros a Ha. unfold gfl_eqb.
+    destruct (fst (ae_key a) =? fst k)%N eqn:E; [apply N.eqb_eq in E; exfalso; exact (H a Ha E) | reflexivity].
+Qed.
+
+Lemma avals_app k A B : avals k (A ++ B) = avals k A ++ avals k B.
+Proof. unfold avals. rewrite filter_app, map_app. reflexivity. Qed.
+Lemma deltas_app k A B : deltas k (A ++ B) = deltas k A ++ deltas k B.
+Proof. unfold deltas. rewrite filter_app, map_app. reflexivity. Qed.
+
+Lemma spec_fluent_app_l P s A B k :
+  (forall a, In a B -> fst (ae_key a) <> fst k) -> spec_fluent P s (A ++ B) k = spec_fluent P s A k.
+Proof.
+  intros H. destruct (no_key_nil k B H) as [E1 E2]. unfold spec_fluent. rewrite avals_app, deltas_app, E1, E2, !app_nil_r.
+  reflexivity.
+Qed.
+Lemma spec_fluent_app_r P s A B k :
+  (forall a, In a A -> fst (ae_key a) <> fst k) -> spec_fluent P s (A ++ B) k = spec_fluent P s B k.
+Proof.
+  intros H. destruct (no_key_nil k A H) as [E1 E2]. unfold spec_fluent. rewrite avals_app, deltas_app, E1, E2. reflexivity.
+Qed.
+Lemma spec_fluent_none P s A k :
+  (forall a, In a A -> fst (ae_key a) <> fst k) -> spec_fluent P s A k = CUnchanged.
+Proof. intros H. destruct (no_key_nil k A H) as [E1 E2]. unfold spec_fluent. rewrite E1, E2. reflexivity. Qed.
+
+Lemma spec_fluent_state P s t A k : s (fst k) (snd k) = t (fst k) (snd k) -> spec_fluent P s A k = spec_fluent P t A k.
+Proof. intros H. unfold spec_fluent. rewrite H. reflexivity. Qed.
+
+(* frame for effects *)
+Lemma evals_l_frame fs sc I I' l :
+  irel_fs fs I I' -> forallb (no_sym fs) l = true -> evals_l sc I' l = evals_l sc I l.
+Proof.
+  intros R. induction l as [|x l IH]; intros H; [reflexivity|]. cbn [forallb] in H. apply andb_true_iff in H.
+  destruct H as [H1 H2]. cbn [evals_l]. rewrite (eval_no_sym fs sc x I I' R H1), (IH H2). reflexivity.
+Qed.
+
+Lemma fired_frame fs sc I I' l :
+  irel_fs fs I I' -> forallb plain_assign l = true ->
+  forallb (no_sym fs) (map e_val l) = true -> forallb (no_sym fs) (flat_map e_args l) = true ->
+  fired sc I' l = fired sc I l.
+Proof.
+  intros R. unfold fired. induction l as [|e l IH]; intros PL NV NA; [reflexivity|].
+  cbn [forallb map flat_map] in *. apply andb_true_iff in PL. destruct PL as [Pe PL].
+  apply andb_true_iff in NV. destruct NV as [Ve NV]. rewrite forallb_app in NA. apply andb_true_iff in NA.
+  destruct NA as [Ae NA].
+  assert (V : e_vars e = []).
+  { unfold plain_assign, eff_plain in Pe. rewrite !andb_true_iff in Pe. destruct Pe as [[_ V] _].
+    destruct (e_vars e); [reflexivity | discriminate]. }
+  assert (C : e_cond e = EBool true).
+  { unfold plain_assign, eff_plain in Pe. rewrite !andb_true_iff in Pe. destruct Pe as [[C _] _]. apply is_true_eq. exact C. }
+  rewrite V. cbn [instances map app].
+  assert (EE : eval_effect sc I' e = eval_effect sc I e).
+  { unfold eval_effect. rewrite (evals_l_frame fs sc I I' _ R Ae), C, (eval_no_sym fs sc (e_val e) I I' R Ve). reflexivity. }
+  rewrite EE. cbn [collect_res].
+  specialize (IH PL NV NA).
+  destruct (eval_effect sc I e); cbn [collect_res]; try reflexivity; try exact IH. rewrite IH. reflexivity.
+Qed.
+
+Lemma memN_in x l : In x l -> memN x l = true.
+Proof. intros H. unfold memN. apply existsb_exists. exists x. split; [exact H | apply N.eqb_refl]. Qed.
+Lemma memN_true_in x l : memN x l = true -> In x l.
+Proof. unfold memN. intros H. apply existsb_exists in H. destruct H as [y [H1 H2]]. apply N.eqb_eq in H2. subst. exact H1. Qed.
+
+Section StepStart.
+  Variable sc : bool.
+  Variable smp : expr -> expr.
+  Hypothesis OK : forall e I, eval sc (smp e) I = eval sc e I.
+  Variable P P' : problem.
+  Hypothesis SB : same_base P P'.
+
+  Lemma step_start_not_read d a' args (s_s s_t s_s' : state) (x : src) t1 t2 :
+    start_not_read_step smp d a' = true -> a_params a' = d_params d ->
+    state_eq s_t s_s -> spec_step sc P' s_s a' args = Some s_s' ->
+    exists s_mid s_t',
+      ref_apply sc P s_t [ {| ev_time := t1; ev_src := x; ev_bind := zip_params (d_params d) args; ev_effs := start_effs d |} ] = Some s_mid /\
+      ref_apply sc P s_mid [ {| ev_time := t2; ev_src := x; ev_bind := zip_params (d_params d) args; ev_effs := end_effs d |} ] = Some s_t' /\
+      state_eq s_t' s_s' /\
+      (forall ic c, In ic (d_conds d) -> In c (snd ic) ->
+         (is_start0 (ti_lo (fst ic)) && negb (ti_lopen (fst ic)) = true ->
+            holds sc (mk_interp P s_t (zip_params (d_params d) args)) c = true) /\
+         (is_end0 (ti_hi (fst ic)) = true -> holds sc (mk_interp P s_mid (zip_params (d_params d) args)) c = true)).
+  Proof.
+    unfold start_not_read_step. cbv zeta. set (ls := start_effs d). set (le := end_effs d). set (fs := map e_fl ls).
+    set (bind := zip_params (d_params d) args).
+    rewrite !andb_true_iff. intros [[[[[ES PL] DJ] NS] EF] CC] EP SE SP.
+    apply effects_eqb_eq in EF.
+    rewrite !forallb_app in NS. rewrite !andb_true_iff in NS. destruct NS as [NC [NV NA]].
+    rewrite map_app, forallb_app in NV. apply andb_true_iff in NV. destruct NV as [_ NVe].
+    rewrite flat_map_app, forallb_app in NA. apply andb_true_iff in NA. destruct NA as [_ NAe].
+    apply spec_step_inv in SP. rewrite EP, EF in SP. fold bind in SP. destruct SP as [A [acts [F [E ->]]]].
+    assert (SE' : state_eq s_s s_t) by (intros f a; symmetry; apply SE).
+    pose proof (mk_interp_base P P' s_s s_t bind SB SE') as IE.
+    rewrite (all_hold_ext sc _ _ (a_pre a') IE) in A.
+    rewrite (fired_ext sc _ _ _ IE) in F. rewrite fired_app, (fired_plain sc smp OK _ le PL) in F.
+    destruct (fired sc (mk_interp P s_t bind) le) as [aE|] eqn:FE; [|discriminate].
+    destruct (fired sc (mk_interp P s_t bind) ls) as [aS|] eqn:FS; [|discriminate].
+    inversion F; subst acts. clear F.
+    assert (KE : forall a, In a aE -> memN (fst (ae_key a)) fs = false).
+    { intros a Ha. pose proof (fired_keys sc _ le aE a FE Ha) as K. apply in_map_iff in K. destruct K as [e [K1 K2]].
+      rewrite forallb_forall in DJ. specialize (DJ e K2). rewrite K1 in DJ. apply negb_true_iff in DJ. exact DJ. }
+    assert (KS : forall a, In a aS -> memN (fst (ae_key a)) fs = true).
+    { intros a Ha. apply memN_in. exact (fired_keys sc _ ls aS a FS Ha). }
+    assert (NE_ : forall k : gfl, memN (fst k) fs = true -> forall a, In a aE -> fst (ae_key a) <> fst k).
+    { intros k Hk a Ha Eq. rewrite <- Eq, (KE a Ha) in Hk. discriminate. }
+    assert (NS_ : forall k : gfl, memN (fst k) fs = false -> forall a, In a aS -> fst (ae_key a) <> fst k).
+    { intros k Hk a Ha Eq. rewrite <- Eq, (KS a Ha) in Hk. discriminate. }
+    assert (E_t : forall a, In a (aE ++ aS) -> spec_fluent P s_t (aE ++ aS) (ae_key a) <> CFail).
+    { intros a Ha. unfold spec_effects_ok in E. rewrite forallb_forall in E. specialize (E a Ha).
+      rewrite (spec_fluent_base P P' s_s s_t _ (ae_key a) SB SE') in E. intros Q. rewrite Q in E. discriminate. }
+    (* start event *)
+    assert (E_S : spec_effects_ok P s_t aS = true).
+    { unfold spec_effects_ok. apply forallb_forall. intros a Ha.
+      rewrite <- (spec_fluent_app_r P s_t aE aS (ae_key a) (NE_ _ (KS a Ha))).
+      pose proof (E_t a (in_or_app _ _ _ (or_intror Ha))) as Q. destruct (spec_fluent P s_t (aE ++ aS) (ae_key a)); congruence. }
+    destruct (ref_apply_single sc P s_t x bind ls aS t1 FS E_S) as [s_mid [R1 M]].
+    assert (MID : forall g a, memN g fs = false -> s_mid g a = s_t g a).
+    { intros g a Hg. rewrite (M g a). unfold spec_succ. rewrite (spec_fluent_none P s_t aS (g, a) (NS_ (g, a) Hg)). reflexivity. }
+    assert (IR : irel_fs fs (mk_interp P s_t bind) (mk_interp P s_mid bind)).
+    { repeat split; cbn; auto. }
+    (* end event *)
+    assert (FE' : fired sc (mk_interp P s_mid bind) le = Some aE).
+    { rewrite (fired_frame fs sc _ _ le IR PL NVe NAe). exact FE. }
+    assert (E_E : spec_effects_ok P s_mid aE = true).
+    { unfold spec_effects_ok. apply forallb_forall. intros a Ha.
+      rewrite (spec_fluent_state P s_mid s_t aE (ae_key a) (MID _ _ (KE a Ha))).
+      rewrite <- (spec_fluent_app_l P s_t aE aS (ae_key a) (NS_ _ (KE a Ha))).
+      pose proof (E_t a (in_or_app _ _ _ (or_introl Ha))) as Q. destruct (spec_fluent P s_t (aE ++ aS) (ae_key a)); congruence. }
+    destruct (ref_apply_single sc P s_mid x bind le aE t2 FE' E_E) as [s_t' [R2 M2]].
+    exists s_mid, s_t'. split; [exact R1|]. split; [exact R2|]. split.
+    - intros f a. rewrite (M2 f a). unfold spec_succ at 1 2.
+      rewrite (spec_fluent_base P P' s_s s_t (aE ++ aS) (f, a) SB SE'), (SE' f a).
+      destruct (memN f fs) eqn:Hf.
+      + rewrite (spec_fluent_none P s_mid aE (f, a) (NE_ (f, a) Hf)).
+        rewrite (spec_fluent_app_r P s_t aE aS (f, a) (NE_ (f, a) Hf)). rewrite (M f a). reflexivity.
+      + rewrite (spec_fluent_state P s_mid s_t aE (f, a) (MID f a Hf)).
+        rewrite (spec_fluent_app_l P s_t aE aS (f, a) (NS_ (f, a) Hf)). rewrite (MID f a Hf). reflexivity.
+    - intros ic c Hic Hc. destruct (conds_hold sc smp OK d (a_pre a') _ A CC ic c Hic Hc) as [K1 K2].
+      split; [exact K1|]. intros K. rewrite <- (K2 K). unfold holds.
+      rewrite (eval_no_sym fs sc c _ _ IR); [reflexivity|]. rewrite forallb_forall in NC. apply NC. apply in_flat_map. exists ic. split; assumption.
+  Qed.
+End StepStart.
